@@ -313,6 +313,9 @@ func main() {
 		if o.Src != "" {
 			entry["clause"] = o.Src
 		}
+		if o.Retried {
+			entry["retried"] = true
+		}
 		if o.Pos.IsValid() {
 			entry["pos"] = fmt.Sprintf("%s:%d", strings.TrimPrefix(o.Pos.Filename, *repo+"/"), o.Pos.Line)
 		}
